@@ -635,8 +635,9 @@ pub fn subpattern_defs() -> BoxedStrategy<SubCase> {
         prop::option::weighted(0.12, 0u8..3),
         prop::bool::weighted(0.4),
         vec(1usize..=8, 4).prop_shuffle(),
+        prop::bool::weighted(0.65),
     )
-        .prop_map(|(bodies, pats, picks, names, sabotage, with_skip, prios)| {
+        .prop_map(|(bodies, pats, picks, names, sabotage, with_skip, prios, utf8)| {
             // subpattern i may reference earlier ones
             let mut subs: Vec<(String, bool, Ast)> = Vec::new();
             let mut depth: Vec<usize> = Vec::new();
@@ -722,7 +723,7 @@ pub fn subpattern_defs() -> BoxedStrategy<SubCase> {
                 }
                 _ => {}
             }
-            SubCase { def: DefSpec { utf8: true, subpatterns, skips, variants }, must_reject, max_ref_depth: max_depth }
+            SubCase { def: DefSpec { utf8, subpatterns, skips, variants }, must_reject, max_ref_depth: max_depth }
         })
         .boxed()
 }
